@@ -60,6 +60,26 @@ class Report:
         self.ob(rule, '<inventory>', 'count:' + what, n == want,
                 '%s: counted %d, expected exactly %d' % (what, n, want))
 
+    def absorb(self, sub):
+        """take over the rules, obligations and notes of a sub-report"""
+        self.rules.update(sub.rules)
+        self.functions |= sub.functions
+        self.assumptions += [a for a in sub.assumptions if a not in self.assumptions]
+        for o in sub.obligations:
+            key = o['key']
+            prev = self._by_key.get(key)
+            if prev is not None:
+                prev['paths'] += o.get('paths', 1)
+                if prev['ok'] and not o['ok']:
+                    prev['ok'] = False
+                    prev['detail'] = o['detail']
+                continue
+            self._by_key[key] = o
+            self.obligations.append(o)
+
+    def failing(self):
+        return [o for o in self.obligations if not o['ok']]
+
     def new_violations(self):
         """failing obligations that are not listed known findings"""
         known = load_known()
